@@ -1013,6 +1013,10 @@ def parse_tree_to_objgraph(
                     call_obj_processors(m._tx_metamodel, m)
 
             except:  # noqa
+                # give the user classes back (models of this load which are
+                # still in construction never reach _end_model_construction)
+                for m in models:
+                    _abandon_model_construction(m, parser)
                 # remove all processed models from (global) repo (if present)
                 # (remove all of them, not only the model with errors,
                 # since, models with errors may be included in other models)
@@ -1048,6 +1052,22 @@ def _start_model_construction(model):
     """
     assert not hasattr(model, "_tx_reference_resolver")
     model._tx_reference_resolver = None
+
+
+def _abandon_model_construction(model, failing_parser):
+    """
+    Called for each model of a load that failed: drops the attributes
+    collected for instances of user classes and, for a model that is still
+    in construction, restores the user classes' attribute methods (the parser
+    of the call that failed restores its own in get_model_from_str).
+    """
+    the_parser = getattr(model, "_tx_parser", None)
+    if the_parser is None:
+        return
+    for obj in getattr(the_parser, "_user_class_inst", []):
+        obj.__class__._tx_obj_attrs.pop(id(obj), None)
+    if hasattr(model, "_tx_reference_resolver") and the_parser is not failing_parser:
+        the_parser._restore_user_attr_methods()
 
 
 def _end_model_construction(model):
